@@ -21,26 +21,26 @@ RowZero(r) == \A j \in DOMAIN r : r[j] = RZero
 Pivot(r) == CHOOSE j \in DOMAIN r : r[j] # RZero /\ \A m \in DOMAIN r : m < j => r[m] = RZero
 Elim(r, piv, p) ==       \* r - (r[p] / piv[p]) * piv
   IF r[p] = RZero THEN r
-  ELSE LET f == RDiv(r[p], piv[p]) IN [j \in DOMAIN r |-> RSub(r[j], RMul(f, piv[j]))]
+  ELSE LET f == RDiv(r[p], piv[p]) IN TLCEval([j \in DOMAIN r |-> RSub(r[j], RMul(f, piv[j]))])      \* (eager: see Automata.tla)
 RECURSIVE Rank(_)
 Rank(rows) ==
   IF rows = <<>> THEN 0
   ELSE LET r == Head(rows) IN
        IF RowZero(r) THEN Rank(Tail(rows))
        ELSE LET p == Pivot(r)
-                rest == [i \in DOMAIN Tail(rows) |-> Elim(Tail(rows)[i], r, p)]
+                rest == TLCEval([i \in DOMAIN Tail(rows) |-> Elim(Tail(rows)[i], r, p)])
             IN 1 + Rank(rest)
 
 (* The same rank without the (exponentially large) Hankel block: rank H = rank(F B^T), where the rows of F span the  *)
 (* forward vectors alpha_w = I A_w1 ... A_wn and the rows of B the backward vectors beta_w = A_w1 ... A_wn F; both  *)
 (* spans are built by closing {I} (resp. {F}) under the symbol matrices with Gaussian reduction (at most n vectors). *)
 (* For epsilon-free automata.                                                                                        *)
-VecI(A) == [q \in 1 .. A.n |-> WI("Rat", A, q - 1)]
-VecF(A) == [q \in 1 .. A.n |-> WF("Rat", A, q - 1)]
+VecI(A) == TLCEval([q \in 1 .. A.n |-> WI("Rat", A, q - 1)])
+VecF(A) == TLCEval([q \in 1 .. A.n |-> WF("Rat", A, q - 1)])
 ArcW(A, p, a, q) == SumSeq("Rat", [r \in DOMAIN A.arcs |->
                        IF A.arcs[r][1] = p /\ A.arcs[r][2] = a /\ A.arcs[r][3] = q THEN A.arcs[r][4] ELSE RZero])
-StepF(A, v, a) == [q \in 1 .. A.n |-> SumSeq("Rat", [p \in 1 .. A.n |-> RMul(v[p], ArcW(A, p - 1, a, q - 1))])]
-StepB(A, v, a) == [p \in 1 .. A.n |-> SumSeq("Rat", [q \in 1 .. A.n |-> RMul(ArcW(A, p - 1, a, q - 1), v[q])])]
+StepF(A, v, a) == TLCEval([q \in 1 .. A.n |-> SumSeq("Rat", [p \in 1 .. A.n |-> RMul(v[p], ArcW(A, p - 1, a, q - 1))])])
+StepB(A, v, a) == TLCEval([p \in 1 .. A.n |-> SumSeq("Rat", [q \in 1 .. A.n |-> RMul(ArcW(A, p - 1, a, q - 1), v[q])])])
 RECURSIVE ReduceBy(_, _)
 ReduceBy(v, basis) == IF basis = <<>> THEN v ELSE ReduceBy(Elim(v, Head(basis), Pivot(Head(basis))), Tail(basis))
 RECURSIVE CloseSpan(_, _, _, _, _)
@@ -57,9 +57,9 @@ HankelRankFast(A) ==
   ELSE LET syms == SetToSeq(Alphabet(A))
            Fb == CloseSpan(A, syms, TRUE, <<>>, <<VecI(A)>>)
            Bb == CloseSpan(A, syms, FALSE, <<>>, <<VecF(A)>>)
-       IN Rank([i \in DOMAIN Fb |-> [j \in DOMAIN Bb |-> Dot(Fb[i], Bb[j])]])
+       IN Rank(TLCEval([i \in DOMAIN Fb |-> [j \in DOMAIN Bb |-> Dot(Fb[i], Bb[j])]]))
 
 HankelRank(A, Sigma) ==
   LET ws == SetToSeq(Strs(Sigma, IF A.n = 0 THEN 0 ELSE A.n - 1))
-  IN Rank([u \in DOMAIN ws |-> [v \in DOMAIN ws |-> AWeight("Rat", A, ws[u] \o ws[v])]])
+  IN Rank(TLCEval([u \in DOMAIN ws |-> [v \in DOMAIN ws |-> AWeight("Rat", A, ws[u] \o ws[v])]]))
 =============================================================================
